@@ -341,5 +341,13 @@ namespace occa {
     }
 
     alignment = newAlignment;
+
+    if (reservations.size() == 0) {
+      /*
+      Keep the size of an empty pool a multiple of the alignment,
+      otherwise the aligned end of a reservation can exceed the pool
+      */
+      resize(((size + alignment - 1) / alignment) * alignment);
+    }
   }
 }
